@@ -4,6 +4,8 @@ package main
 
 import (
 	"bytes"
+	"net/http"
+	"net/http/httptest"
 	"sort"
 	"encoding/binary"
 	"fmt"
@@ -208,6 +210,9 @@ func whyNotOwn(sent, got []byte) string {
 		return "question differs from the query's"
 	}
 	name := q.Question[0].Name
+	if strings.HasSuffix(strings.ToLower(name), viewZone) {
+		return viewReplyOwn(q, r)
+	}
 	for _, x := range r.Extra {
 		if _, isOpt := x.(*dns.OPT); !isOpt {
 			return "unexpected additional record"
@@ -249,7 +254,12 @@ func whyNotOwn(sent, got []byte) string {
 }
 
 func startLive(listen bool, tweak func(*config.Config)) *srvh.Live {
-	l := srvh.Start(srvh.Opts{Handlers: []string{"recovery", "edns", "cache"}, Listen: listen, Tweak: tweak})
+	l := srvh.Start(srvh.Opts{Handlers: []string{"recovery", "edns", "views", "cache"}, Listen: listen, Tweak: func(cfg *config.Config) {
+		viewsTweak(cfg)
+		if tweak != nil {
+			tweak(cfg)
+		}
+	}})
 	l.Stub.Set(stubRespond)
 	l.Stub.Delay = stubDelay
 	l.Stub.Panic = stubPanic
@@ -606,6 +616,15 @@ func stressPacket(r *vlib.R, c, seq int, nShared int, st *stressStats, mine []st
 	default:
 		name = fmt.Sprintf("c%d-s%d-ok.z.c10.", c, seq)
 	}
+	if r.Chance(1, 12) {
+		// a per-client static answer (views), in this client's own 0x20 spelling
+		m := new(dns.Msg)
+		m.SetQuestion(rand0x20(r, vlib.Pick(r, []string{"www." + viewZone, "www." + viewZone, "h1.wild." + viewZone})), dns.TypeA)
+		m.Id = id
+		m.SetEdns0(1232, false)
+		b, _ := m.Pack()
+		return b, ""
+	}
 	return mkQuery(id, name, r.Chance(5, 6)), name
 }
 
@@ -920,6 +939,43 @@ func boundaryClient(addr string, c, drain int, st *stressStats, fb *failBox, don
 	}
 }
 
+// dohClient: whole DoH exchanges through the real Server.ServeHTTP (wire
+// format POST). The HTTP response body must be the reply to this exchange's
+// query.
+func dohClient(l *srvh.Live, c, n int, seed uint64, nShared int, st *stressStats, fb *failBox, done *sync.WaitGroup) {
+	defer done.Done()
+	r := vlib.NewR(seed*5000011 + uint64(c))
+	var mine []string
+	for seq := 1; seq <= n && fb.get() == ""; seq++ {
+		raw, name := stressPacket(r, c, seq, nShared, st, mine)
+		if len(raw) < 12 || raw[2]&0x80 != 0 || new(dns.Msg).Unpack(raw) != nil {
+			continue
+		}
+		if r.Chance(1, 3) { // more of what ends in a bare rcode reply
+			raw = mkQuery(uint16(c)<<10|uint16(seq), fmt.Sprintf("c%d-s%d-pn.z.c10.", c, seq), true)
+			name = ""
+		}
+		if name != "" && strings.HasSuffix(name, "-ok.z.c10.") && len(mine) < 32 {
+			mine = append(mine, name)
+		}
+		st.sent.Add(1)
+		rec := httptest.NewRecorder()
+		hr := httptest.NewRequest(http.MethodPost, "/dns-query", bytes.NewReader(raw))
+		hr.Header.Set("Content-Type", "application/dns-message")
+		hr.RemoteAddr = fmt.Sprintf("198.51.100.%d:%d", c, 8000+c)
+		l.Srv.ServeHTTP(rec, hr)
+		if rec.Code != http.StatusOK {
+			continue
+		}
+		body, _ := io.ReadAll(rec.Body)
+		if why := whyNotOwn(raw, body); why != "" {
+			fb.set("stress/doh/not-own-reply", "DoH exchange of client %d seq %d (%s): %s", c, seq, nameOfRaw(raw), why)
+			return
+		}
+		st.replies.Add(1)
+	}
+}
+
 func nameOfRaw(raw []byte) string {
 	m := new(dns.Msg)
 	if err := m.Unpack(raw); err != nil || len(m.Question) != 1 {
@@ -960,6 +1016,10 @@ func execStress(f []string) vlib.Res {
 	for c := 0; c < 4; c++ {
 		senders.Add(1)
 		go msgClient(l, nu+nt+c, per, seed, nShared, st, fb, &senders)
+	}
+	for c := 0; c < 4; c++ {
+		senders.Add(1)
+		go dohClient(l, nu+nt+5+c, per, seed, nShared, st, fb, &senders)
 	}
 	senders.Add(1)
 	go boundaryClient(l.Addr, nu+nt+4, server.VerifC10Sizes()["tcp_drain"], st, fb, &senders)
